@@ -957,3 +957,44 @@ pub fn gen_flags(t: &mut Tape) -> u32 {
         _ => t.word() & crate::util::F_ALL,
     }
 }
+
+/// Wrap `inner` (run in environment `env`) in `depth` nested softfork guards of
+/// extension `ext`, with the declared costs computed inside-out by pre-runs
+/// under `flags`. Returns the program (to be run in any environment).
+pub fn nest_guards(inner: &Dag, env: &Dag, depth: u32, ext: u32, flags: u32) -> Option<Dag> {
+    let new_model = flags & 0x2000 != 0;
+    let guard_cost: u64 = if new_model { 500 } else { 140 };
+    let run_flags = (flags | if ext == 1 { 0x0100 } else { 0 }) & !0x0010; // no depth limit for the pre-runs
+    let mut prog = inner.clone();
+    let mut cur_env = env.clone();
+    for _ in 0..depth {
+        let cost = {
+            let mut a = Allocator::new();
+            let p = build(&mut a, &prog).ok()?;
+            let e = build(&mut a, &cur_env).ok()?;
+            let dialect = ChiaDialect::new(ClvmFlags::from_bits_truncate(run_flags));
+            run_program(&mut a, &dialect, p, e, 0).ok()?.0
+        };
+        let mut d = Dag::new();
+        let q = |d: &mut Dag, v: u32| {
+            let one = d.atom(&[1]);
+            d.pair(one, v)
+        };
+        let c0 = d.atom(&int_bytes((cost + guard_cost) as i128));
+        let c = q(&mut d, c0);
+        let e0 = d.atom(&int_bytes(ext as i128));
+        let e = q(&mut d, e0);
+        let p0 = d.append(&prog);
+        let p = q(&mut d, p0);
+        let v0 = d.append(&cur_env);
+        let v = q(&mut d, v0);
+        let op = d.atom(&[36]);
+        let l = d.list(&[c, e, p, v]);
+        d.pair(op, l);
+        prog = d;
+        let mut ne = Dag::new();
+        ne.nil();
+        cur_env = ne;
+    }
+    Some(prog)
+}
